@@ -153,15 +153,17 @@ def main(tier, seed):
     models = list(flatgen.all_models(tier, only.split(',') if only else None))
     step = int(os.environ.get('C01_STEP', '1'))
     # small special families first: if the deadline stops the run, what is cut is the tail of the shape family
-    models.sort(key=lambda t: (t[0] == 'shapes', 0))
+    # and the costly families (exact LP over many weights, long integer enumerations) first, so that they do not form the tail
+    HEAVY = ('pl', 'affprod', 'unbounded', 'log3', 'sos', 'cones')
+    models.sort(key=lambda t: (t[0] == 'shapes', t[0] not in HEAVY))
     # the cone-shaped rows are run under the presets that accept cones (with / without quadratic rows)
     jobs = [(fam, name, m, tier, CONE_PRESETS if fam == 'cones' else gnames, i)
             for i, (fam, name, m) in enumerate(models) if i % step == 0]
-    deadline = time.time() + (420 if tier == 'quick' else 3300)
+    deadline = time.time() + (600 if tier == 'quick' else 3300)
     tot = collections.Counter(); classes = set(); fps = set()
     done = 0
     with Pool(vcheck.NCPU) as pool:
-        for st, viols, cl, fp, samples in pool.imap_unordered(work, jobs, chunksize=4):
+        for st, viols, cl, fp, samples in pool.imap_unordered(work, jobs, chunksize=1):
             done += 1
             tot.update(st); classes.update(cl); fps.update(fp)
             for s in samples: chk.sample(s)
